@@ -2,13 +2,13 @@
 """glib_experiments.py — the claims about libglib's main context that coq/theories/GLibSem.v models,
 each checked against the REAL library (libglib-2.0.so.0 through the ctypes stand-in harness/glib_shim).
 
-Run:  timeout 60 /venv/bin/python /verif/corpus/glib/glib_experiments.py      (exit 0 = every claim holds)
+Run:  timeout 60 /venv/bin/python corpus/glib/glib_experiments.py      (exit 0 = every claim holds)
 
 The GLib part of GLibSem.v is a model of an external C library: not verified, only validated — by this
 script (hand-made scenarios) and by the C20 correspondence run (thousands of generated sessions).
 """
-import sys
-sys.path.insert(0, "/verif/harness/glib_shim")
+import sys, os
+sys.path.insert(0, os.path.join(os.path.dirname(os.path.abspath(__file__)), "..", "..", "harness", "glib_shim"))
 import gi
 gi.require_version("GLib", "2.0")
 from gi.repository import GLib
